@@ -181,7 +181,7 @@ theorem Progress.parseDirectiveDefinition {L : Nat} (n : Nat) (d : Bytes) : Prog
 theorem Good.parseOptionalDescription {L n : Nat} : Good L n parseOptionalDescription := by
   unfold Gql.Parser.parseOptionalDescription; good
 
-theorem Good.rejectDescription {L n : Nat} (d : Bytes) : Good L n (rejectDescription d) := by
+theorem Good.rejectDescription {L n : Nat} (d : Bool) : Good L n (rejectDescription d) := by
   unfold Gql.Parser.rejectDescription; good
 
 theorem Good.run_bind_oof {α β : Type} {L m : Nat} {p : Prog α} {f : α → Prog β} (hg : Good L m p) {s : PState}
